@@ -335,3 +335,8 @@ def run(ctx):
     ctx.rule("R18.8", "ovnidump's decode buffer holds the longest description plus the longest label a model accepts")
     from rules import round6
     round6.check_dump_buffer_fits(ctx, "R18.8")
+    ctx.rule("R18.9", "every listed event is processed wherever the model's documented precondition holds: the handlers' "
+             "guard is not stricter than it (C08 R8.3's accepted-when instances: an event accepted for a running thread "
+             "but refused for a merely active one, where the model requires active, is listed yet illegal there)")
+    round5.share(ctx, "R18.9", "C08", lambda i_: i_["rule"] == "R8.3" and ":accepted-when:" in i_["inst"], "context:",
+                 "a listed event is refused in a context where it is legal", 100)
